@@ -141,6 +141,15 @@ def streams(ctx):
     good = [("simgood" + r[len("simstep"):], "ok", None) for r, _, _ in cases]
     md, sd = correspond(ctx, "safe-side-conditions", good, lambda r, i: True)
     settle(ctx, md, sd)
+    # ROUND 8: the same single-instruction comparison with the RESULT of a table builtin (car cdr cons set-car! set-cdr!
+    # eq? eqv? and the type predicates) computed by the model `ListExt.builtinEval` instead of replayed from the recorded
+    # heap delta: the tie of Vm/ListExt.lean (for which all Ext law structures are theorems) to builtin_*.rs
+    if q:
+        lx = gen_cases("simstep", ["runlx", 88, 7], ctx.seed)
+    else:
+        lx = gen_cases_sharded("simstep", ["runlx", 176, 8], ctx.seed, 2)
+    md, sd = correspond(ctx, "concrete-heap-step-listext", lx, lambda r, i: True, model_equal=simstep_equal)
+    settle(ctx, md, sd)
     # unobservability exploration on the implementation
     cases = gen_cases_sharded("gc", ["obs", 20 if q else 150, 3 if q else 18], ctx.seed, 5 if q else 8)
     md, sd = correspond(ctx, "schedule-exploration", cases, obs_nontrivial)
@@ -168,3 +177,10 @@ def run(ctx):
              "Non-trivial = collection kept something / transcript has a successful form / step executed; distinct by "
              "request text",
         trusted_extra=["T03.5 (unobservability) is carried by stream (3) plus theorem T03.2, not by a closed theorem"])
+
+
+# ROUND 8: the Ext laws are theorems for a table of real builtins (lib/props/procinv_util.py, Lemmas/ListExtC03.lean)
+import procinv_util as _pv8
+MODULE = _pv8.listext_module("C03")
+THEOREMS = THEOREMS + [t for t in _pv8.LISTEXT_LAWS + _pv8.LISTEXT["C03"] if t not in THEOREMS]
+META["note"] = META["note"] + _pv8.LISTEXT_NOTE
